@@ -238,6 +238,17 @@ TABLE.update({
  "C17-T": ("sim", "go test -vet=off -count=1 -run TestC17T ./sim/"),
 })
 
+TABLE.update({
+ "C05-U": ("util/fn", "go test -race -vet=off -count=1 -run TestC05U ./util/fn/"),
+ "C05-V": ("models/rr", "go test -race -vet=off -count=1 -run TestC05V ./models/rr/"),
+ "C07-U": ("cmd/ow-sim", "go1.26.8 test -gcflags=-lang=go1.21 -modfile=%(stub)s -vet=off -count=1 -run TestC07Demo ./cmd/ow-sim/"),
+ "C07-V": ("cmd/ow-sim", "go1.26.8 test -modfile=%(stub)s -vet=off -count=1 -run TestC07Demo ./cmd/ow-sim/"),
+ "C08-U": ("io", "go1.26.8 test -modfile=%(stub)s -vet=off -count=1 -run TestC08UDemo ./io/"),
+ "C08-V": ("io", "go1.26.8 test -modfile=%(stub)s -vet=off -count=1 -run TestC08VDemo ./io/"),
+ "C14-U": ("models/routing", "go test -vet=off -count=1 -run TestC14U ./models/routing/"),
+ "C14-V": ("models/generation", "go test -vet=off -count=1 -run TestC14V ./models/generation/"),
+})
+
 def sh(cmd, cwd=WT):
     r = subprocess.run(cmd, shell=True, cwd=cwd, env=ENV, capture_output=True, text=True)
     return r.returncode, (r.stdout + r.stderr)[-1500:]
